@@ -57,7 +57,7 @@ CHECKS["C01"] = {
 CHECKS["C02"] = {
     "title": "Soundness: the verifier enforces exactly the BP+ relation",
     "level": "exploration",
-    "technique": "runtime monitoring: verifier's final MSM captured over a free-module group and compared coefficient-by-coefficient with an explicit-folding reference; differential verdict oracle incl. dishonest provers; challenge events at the merlin boundary",
+    "technique": "runtime monitoring: verifier's final MSM captured over a free-module group and compared coefficient-by-coefficient with an explicit-folding reference evaluated at the challenges observed at the merlin boundary; differential verdict oracle incl. dishonest provers; shape-refusal monitor",
     "design_ref": "DESIGN.md section 4 C02",
     "legs": [
         {"name": "fm-coeff", "shards": 16},
@@ -209,7 +209,7 @@ CHECKS["C08"] = {
 CHECKS["C09"] = {
     "title": "Mask recovery returns the commitment's exact mask, position by position",
     "level": "exploration",
-    "technique": "runtime monitoring: recovered masks compared component-by-component with the harness's own blinding vectors (pairwise distinct components), all modes, all bit lengths x degrees, fault-injected prover RNGs; batch slot-alignment monitor up to 600 members; independent re-implementation of the documented recovery as second oracle",
+    "technique": "runtime monitoring: recovered masks compared component-by-component with the harness's own blinding vectors (pairwise distinct components), all modes, all bit lengths x degrees, fault-injected prover RNGs; batch slot-alignment monitor up to 600 members",
     "design_ref": "DESIGN.md section 4 C09",
     "legs": [{"name": "fm", "shards": 16}, {"name": "ris", "shards": 16}],
     "rule": "single cases: (bit length, extension degree 1..6, capacity, value class, promise class, context, prover-RNG model) x verify mode, with random pairwise-distinct blinding components; "
@@ -220,7 +220,7 @@ CHECKS["C09"] = {
     "assumptions": COMMON_ASSUMPTIONS,
     "level_text": "Proves under a seed and recovers with the same seed, for every bit length and every extension degree with pairwise distinct blinding components, under seven prover-RNG "
                   "fault models: both recovering modes must return exactly the blinding vector, component by component and in order; verify-only, unseeded and aggregated members must yield None; "
-                  "in batches (up to 600 members, mixed composition) slot i must hold member i's mask. The documented recovery formula, implemented independently, must agree.",
+                  "in batches (up to 600 members, mixed composition) slot i must hold member i's mask.",
     "level_note": "Held on the executed recoveries. Trusted: harness bookkeeping of blinding vectors, refbp nonce derivation.",
 }
 
@@ -415,7 +415,7 @@ CHECKS["C18"] = {
 CHECKS["C19"] = {
     "title": "Wire compatibility with the released protocol and a reference implementation",
     "level": "exploration",
-    "technique": "runtime monitoring against recorded golden vectors (proofs, masks, generator encodings recorded from the pinned tree with pristine merlin) and differential cross-implementation runs with the independent prover/verifier, byte for byte over Ristretto",
+    "technique": "runtime monitoring against recorded golden vectors (proofs, masks, generator encodings recorded from the pinned tree with pristine merlin) and differential cross-implementation runs with the independent prover/verifier/recovery, byte for byte over Ristretto, incl. challenge sequences observed at the merlin boundary vs the documented transcript layout",
     "design_ref": "DESIGN.md section 4 C19",
     "legs": [{"name": "vectors", "shards": 16}, {"name": "cross", "shards": 16}],
     "rule": "vector cases: each of the 54 recorded proofs (every bit length x every degree seeded, plus 12 aggregated configurations up to 64x32; quick skips bits*aggregation > 512) verified in three modes, masks compared, "
